@@ -2753,6 +2753,10 @@ impl<Alloc: BrotliAlloc> BrotliEncoderStateStruct<Alloc> {
                     *next_out_offset += copy as usize;
                     // *next_out = next_out.offset(copy as isize);
                     *available_out = available_out.wrapping_sub(copy as usize);
+                    self.total_out_ = self.total_out_.wrapping_add(u64::from(copy));
+                    if let &mut Some(ref mut total_out_inner) = total_out {
+                        *total_out_inner = self.total_out_ as usize;
+                    }
                 } else {
                     let copy: u32 = min(self.remaining_metadata_bytes_, 16u32);
                     self.next_out_ = NextOut::TinyBuf(0);
